@@ -23,14 +23,20 @@ def run_case(case, tmp):
         def infer(self):
             return self.owner.version if self.owner is not None else self.version
 
+    class EmptyVInf(VInf):
+        """an inference model that is falsy (a container-like model with nothing in it yet): still an inference model"""
+        def __len__(self):
+            return 0
+
     class VTrain(TrainingModel):
-        def __init__(self, idx, hi, io):
+        def __init__(self, idx, hi, io, falsy=False):
             super().__init__(hi, io)
             self.idx = idx
             self.version = 0
+            self.falsy = falsy
 
         def _create_inference_model(self):
-            return VInf(self if self.inference_thread_only else None)
+            return (EmptyVInf if self.falsy else VInf)(self if self.inference_thread_only else None)
 
         def forward(self):
             return self.version
@@ -47,10 +53,11 @@ def run_case(case, tmp):
             self.version = int((path / "v").read_text())
 
     flags = case["flags"]
+    falsy = case.get("falsy") or [False] * len(flags)
     models = {}
     for i, (hi, io) in enumerate(flags):
         try:
-            models[f"m{i}"] = VTrain(i, hi, io)
+            models[f"m{i}"] = VTrain(i, hi, io, falsy[i])
         except ValueError:
             return {"ctor_error": i}
     tmd = TrainingModelsDict(models)
@@ -132,7 +139,7 @@ def run_case(case, tmp):
             lazy[op[1]].run()
         else:
             # produce a state directory holding the requested versions, then load it
-            src = TrainingModelsDict({f"m{i}": VTrain(i, hi, io) for i, (hi, io) in enumerate(flags)})
+            src = TrainingModelsDict({f"m{i}": VTrain(i, hi, io, falsy[i]) for i, (hi, io) in enumerate(flags)})
             for i, v in enumerate(op[1]):
                 if f"m{i}" in src.data:
                     src.data[f"m{i}"].version = v
